@@ -55,6 +55,10 @@ CLAIMS = {
          "_SELECT KEY / UNIQUE directives naming unknown columns through sql.NewTable and sqlcrud.generateTable. Sweeps: typescript, dart (incl. Generate), SQL validators, gounions, randdata on every analysis.Type skeleton "
          "of depth<=1 (quick) / 2 (thorough) over the nine node kinds. NOT decided: the full statement over all well-typed packages (createType on arbitrary go/types graphs, unbounded recursion, packages.Load).",
          "DESIGN.md section 4 (C18)", ""),
+ "C04": ("Bug hunting only for the headline (evaluation under PostgreSQL semantics is not encoded). Decided text clauses of generator/sql/json.go: for every type skeleton of depth<=2 every gomacro_validate_json_* function a body calls is defined exactly once and the "
+         "column type's own validator is defined; slices accept null and fixed arrays have jsonb_array_length(data) = Len, non-arrays rejected, elements validated; maps accept null, require objects, validate values; the enum validator lists exactly the constant values "
+         "(ints as written, strings single-quoted, symbolic string values); the struct validator rejects unknown keys and validates every exported field under its JSON key (symbolic names/tags). One listed known finding (validator name collisions across packages).",
+         "DESIGN.md section 5 (C04)", ""),
  "C03": ("Bug hunting only for the headline (inhabitation of TypeScript types by JSON documents needs a TypeScript semantics, not encoded). Decided text clauses: for every type skeleton of depth<=2 the output is self-contained: every type name it mentions "
          "(through exported non-opaque fields, elements, keys, members) is declared exactly once and declared names are identifiers; slices and maps accept null; a fixed array of length 1..4 is a tuple alias with exactly Len elements, declared under the name references use; "
          "an enum lists every constant once with its value (symbolic names); two structs of two packages never share a declaration (one listed known finding: equal local names). Union alternatives are covered under C02.",
